@@ -82,11 +82,22 @@ if __name__ == "__main__":
     obs = idx["obligations"] or []
     if len(sys.argv) > 2:
         obs = [o for o in obs if sys.argv[2] in o["name"]]
-    res = solve_many([os.path.join(d, o["file"]) for o in obs], jobs=6)
+    files = [(o, f) for o in obs for f in o["files"]]
+    res = solve_many([os.path.join(d, f) for _, f in files], jobs=12)
+    by = {}
+    for (o, f), r in zip(files, res):
+        by.setdefault(o["name"], []).append((f, r))
     bad = 0
-    for o, r in zip(obs, res):
-        want = "sat" if o.get("expect_sat") else "unsat"
-        ok = r["result"] == want
-        bad += not ok
-        print(("ok  " if ok else "FAIL"), r["result"], r["solver"], "%.2f" % r["seconds"], o["file"], o["name"], r["answers"] if not ok else "")
+    for o in obs:
+        parts = by[o["name"]]
+        if o.get("expect_sat"):
+            fails = [(f, r) for f, r in parts if r["result"] == "unsat"]
+        else:
+            fails = [(f, r) for f, r in parts if r["result"] != "unsat"]
+        if fails:
+            bad += 1
+            f, r = fails[0]
+            print("FAIL", r["result"], f, o["name"], {k: v for k, v in r["answers"].items()})
+        else:
+            print("ok  ", "%.2f" % sum(r["seconds"] for _, r in parts), o["name"])
     print("failed:", bad, "of", len(obs))
